@@ -266,7 +266,8 @@ def r05_3(ctx) -> None:
     # the initial fill takes exactly one head per source
     f = ctx.unit("heapq._KeyIter.from_iters")
     fcfg = cfg_of(f)
-    pulls = pull_nodes(ctx, f)
+    # (a head is taken by a direct pull or by the holder's own pulling method on a fresh holder)
+    pulls = pull_nodes(ctx, f) + [n for n in fcfg.nodes if n.kind == "await" and not n.tag and f".{puller}(" in norm(n.ast)]
     loops = [n for n in fcfg.nodes if n.kind == "snext" and not n.tag]
     ok = len(pulls) == 1 and len(loops) == 1 and pulls[0].in_region("loop", loops[0].ast) and not any(
         k == "loop" and a is not loops[0].ast for (k, a) in pulls[0].regions)
